@@ -382,6 +382,7 @@ fn c09_cfg(t: Tier) -> GenCfg {
   c.wchks = RCHKS.to_vec();
   c.exact_share = 0;
   c.bottom_up_weight = 3;
+  c.task_panic_share = 2;
   c
 }
 
@@ -433,7 +434,7 @@ pub fn split_sessions(c: &Case) -> Case {
 
 pub fn c17_judge(case: &Case, run: &Run, an: &Analysis, stats: &mut Stats) -> CheckResult {
   let events = crate::instr::events_of(&run.log);
-  let (nest, depth) = crate::instr::nesting(&events, false);
+  let (nest, depth) = crate::instr::nesting_log(&run.log);
   let has_bu = an.builds.iter().any(|b| matches!(b.kind, BuildKind::BottomUp(_)) && !b.facts.scheduled.is_empty());
   if depth >= 3 && has_bu { stats.nontrivial(fingerprint(case)); sample(case, stats); }
   if depth >= 6 { stats.class("nesting_depth>=6"); }
@@ -471,6 +472,8 @@ fn c17_cfg(t: Tier) -> GenCfg {
   // Checker errors at validation time are part of the event stream too.
   c.faulty = true;
   c.fault_steps = true;
+  // Builds cut by a task failure: the only place where unclosed starts are tolerated.
+  c.task_panic_share = 2;
   c
 }
 
@@ -622,6 +625,8 @@ fn c16_cfg(t: Tier) -> GenCfg {
   let mut c = bu_cfg(t);
   c.wide = true;
   c.bottom_up_weight = 3;
+  // Aborted builds (task failures) are part of the history that must replay identically.
+  c.task_panic_share = 2;
   c
 }
 
@@ -882,11 +887,9 @@ fn dep_text(d: &crate::model::Dep) -> EdgeText {
   }
 }
 
-fn c08_judge(case: &Case, run: &Run, an: &Analysis, stats: &mut Stats) -> CheckResult {
+/// Dump equality after every session: Ok(true) when the case accessed one target with two checkers (finding class).
+fn c08_dump(run: &Run, stats: &mut Stats) -> Result<bool, Failure> {
   use crate::model::{DepTarget, Shadow};
-  let mut nontrivial = false;
-  for b in &an.builds { if b.facts.dropped_require && b.facts.added_require { nontrivial = true; } }
-  if nontrivial { stats.nontrivial(fingerprint(case)); sample(case, stats); }
   let mut sh = Shadow::default();
   let mut pos = 0usize;
   let mut any_multi = false;
@@ -955,23 +958,49 @@ fn c08_judge(case: &Case, run: &Run, an: &Analysis, stats: &mut Stats) -> CheckR
     }
   }
   let multi_case = any_multi || sh.last.values().any(|e| !e.multi_checker_targets().is_empty());
+  Ok(multi_case)
+}
+
+fn c08_judge(case: &Case, run: &Run, an: &Analysis, stats: &mut Stats) -> CheckResult {
+  let mut nontrivial = false;
+  for b in &an.builds { if b.facts.dropped_require && b.facts.added_require { nontrivial = true; } }
+  if nontrivial { stats.nontrivial(fingerprint(case)); sample(case, stats); }
+  let multi_case = c08_dump(run, stats)?;
   if multi_case { stats.class("case_with_two_checkers_on_one_target"); return Ok(()); }
   // Behavioural consequences (event level): nothing is validated or scheduled through a dependency the task no longer
   // has, and every dependency it has is.
   fail_on(an, &["I3-order", "bu-extra-check", "bu-missed-check", "stamp", "incomplete-validation", "panic-internal"])
 }
 
+/// Dump equality on programs with one state-dependent violation (guarded hidden dependency / overlap / cycle) and
+/// injected panics: whatever aborted, every task whose last execution *completed* holds exactly that execution's
+/// dependencies (rejected edges, aborted neighbours and later re-insertions included).
+fn c08_diag_check(case: &Case, stats: &mut Stats) -> CheckResult {
+  let run = engine::run_case(case, &dump_opts());
+  let aborted = run.sessions.iter().any(|s| s.builds.iter().any(|b| matches!(b.result, engine::BuildResult::Panic(_))));
+  if aborted { stats.class("dump_compared_in_case_with_diagnosed_or_injected_abort"); stats.nontrivial(fingerprint(case)); sample(case, stats); }
+  c08_dump(&run, stats).map(|_| ())
+}
+
+fn c08_extra(_spec: &Spec, tier: Tier, seed: u64, known: &Known, report: &mut Report) {
+  let (shards, cases) = match tier { Tier::Quick => (8, 6000), Tier::Thorough => (16, 100000) };
+  let dcfg = super::diag::diag_cfg(tier);
+  let scfg = SearchCfg { prop: "C08", label: "diag", seed, shards, cases_per_shard: cases, max_shrink_iters: 3000 };
+  let (stats, found) = driver::search(&scfg, known, || super::diag::strategy(dcfg.clone()), |c, s| c08_diag_check(c, s), |c| pretty_case(c));
+  report.absorb("diag", stats, found);
+}
+
 pub const C08: Spec = Spec {
   prop: "C08",
   level: "exploration",
-  rule: "generated programs whose tasks change which tasks and resources they use with resource values x histories flipping those values (top-down and bottom-up); after every session the read-only store dump (hook) must equal, for every executed task, the dependencies its last execution created according to the task-side log: kind, target, checker text, stamp text, in creation order, plus cached output; resource nodes have incoming edges exactly from their current users; no reserved edge remains; event level: nothing validated/scheduled through a dropped dependency and every recorded dependency checked. 20% of cases repeat an access with a different checker (recorded findings C08-F1/F2). Non-trivial = a task re-executed with requires both dropped and added; distinct by case hash",
+  rule: "generated programs whose tasks change which tasks and resources they use with resource values x histories flipping those values (top-down and bottom-up); after every session the read-only store dump (hook) must equal, for every executed task, the dependencies its last execution created according to the task-side log: kind, target, checker text, stamp text, in creation order, plus cached output; resource nodes have incoming edges exactly from their current users; no reserved edge remains; event level: nothing validated/scheduled through a dropped dependency and every recorded dependency checked. 20% of cases repeat an access with a different checker (recorded findings C08-F1/F2). A second search (label diag) compares the dump of every completed task on programs with one state-dependent violation (guarded hidden dependency / overlap / cycle) and injected panics, i.e. across diagnosed aborts, rejected edges and later re-insertions. Non-trivial = a task re-executed with requires both dropped and added; distinct by case hash",
   cfg: c08_cfg,
   transform: identity,
   judge: c08_judge,
   opts: dump_opts,
   quick: (8, 15000),
   thorough: (16, 250000),
-  extra: None,
+  extra: Some(c08_extra),
   strategy: None,
   assumptions: &["Debug text of checkers and stamps identifies them (true for the harness's and pie's built-in checkers)", "hook: Pie::verif_dump (feature gohla_pie_verif), read-only"],
 };
@@ -1011,6 +1040,7 @@ pub fn replay(prop: &str, _label: &str, path: &Path) -> Result<CheckResult, Stri
   if prop == "C06" && _label == "after-aborts" { return Ok(super::inject::replay_c06_after_aborts(&case)); }
   if prop == "C20" && _label == "after-aborts" { return Ok(driver::guarded(|| super::roles::check_after_aborts(&case, &mut Stats::dummy()))); }
   if prop == "C20" && _label == "guarded" { return Ok(driver::guarded(|| super::diag::check(&case, super::diag::Mode::C20, &mut Stats::dummy()))); }
+  if prop == "C08" && _label == "diag" { return Ok(driver::guarded(|| c08_diag_check(&case, &mut Stats::dummy()))); }
   if prop == "C19" && _label == "diag" { return Ok(driver::guarded(|| super::diag::check(&case, super::diag::Mode::C19, &mut Stats::dummy()))); }
   Ok(driver::guarded(|| check(spec, &case, &mut Stats::dummy())))
 }
